@@ -134,6 +134,7 @@ func repoRoot() string {
 
 func loadPools() *pools {
 	p := &pools{}
+	var needsOptsJSON, needsOptsNames []string
 	root := repoRoot()
 	var tfiles []string
 	a, _ := filepath.Glob(filepath.Join(root, "test/testdata/*.ach"))
@@ -170,6 +171,21 @@ func loadPools() *pools {
 		for i := 0; i < 8; i++ {
 			add(fmt.Sprintf("gen-mixed-%d", i), gen.File(gr, gen.Opts{MinBatches: 2, MaxBatches: 4, IAT: true, Returns: i%2 == 0, NOC: i%3 == 0, Addenda: true}))
 		}
+		// files valid only under the options stored on them (gen.NeedsOpts), for the flag sets of
+		// optQueries: as text they are accepted by the create route with the matching query only, as
+		// JSON (appended to the JSON bodies below) they carry their own validateOpts member
+		for _, name := range []string{"bypass-origin", "bypass-destination", "custom-trace-numbers", "invalid-check-digit",
+			"allow-zero-batches", "bypass-origin-traces", "custom-trace-numbers", "bypass-destination"} {
+			g := gen.NeedsOptsOf(gr, gen.OptVariantByName(name))
+			if g == nil || len(g.IATBatches) > 0 || g.IsADV() {
+				continue
+			}
+			add("needs-opts-"+name, g)
+			if bs, err := json.Marshal(g); err == nil && len(bs) < 60000 {
+				needsOptsJSON = append(needsOptsJSON, string(bs))
+				needsOptsNames = append(needsOptsNames, "needs-opts-"+name+".json")
+			}
+		}
 	}()
 	// JSON bodies: fixtures, plus the JSON form of every text fixture the reader accepts
 	var bases, names []string
@@ -200,6 +216,8 @@ func loadPools() *pools {
 			names = append(names, p.textN[i]+".json")
 		}()
 	}
+	bases = append(bases, needsOptsJSON...)
+	names = append(names, needsOptsNames...)
 	for i, bs := range bases {
 		for v := 0; v < 4; v++ {
 			p.jsonB = append(p.jsonB, setTopID(bs, v))
